@@ -47,6 +47,11 @@ def expr_text(e):
     raise ValueError(e)
 
 
+def indent_text(i):
+    """indentation of an element that starts on its own line: a number of blanks, or the text itself (tabs)"""
+    return ' ' * i if isinstance(i, int) else i
+
+
 def attr_escape(s):
     return s.replace('&', '&amp;').replace('<', '&lt;').replace('"', '&quot;')
 
@@ -135,7 +140,7 @@ def serialise(node, prefix='tal', spelling=None, root=True):
         return '<![CDATA[' + parts_text(node['cdata'], False) + ']]>'
     out = ''
     if node.get('indent') is not None:
-        out += '\n' + ' ' * node['indent']
+        out += '\n' + indent_text(node['indent'])
     as_element = bool(spelling and spelling.get('element_form') and node.get('ns_element'))
     tag = node['tag']
     if as_element:
@@ -184,7 +189,7 @@ def serialise(node, prefix='tal', spelling=None, root=True):
     for c in children:
         out += serialise(c, prefix, spelling, False)
     if node.get('close_indent') is not None:
-        out += '\n' + ' ' * node['close_indent']
+        out += '\n' + indent_text(node['close_indent'])
     out += '</' + tag + '>'
     return out
 
